@@ -25,7 +25,7 @@ import fakenet as fn
 ID = 'C02'
 MODULE = 'SshAudit.Props.C02'
 NAMESPACE = 'SshAudit.C02'
-EXTENSIONS = []   # 'props.ext.C02_policyaudit' is re-enabled once its model follows the D39 repair (616b7a8)
+EXTENSIONS = ['props.ext.C02_policyaudit']
 THEOREMS = ['foldStatus_append', 'foldStatus_three', 'foldStatus_two', 'foldStatus_zero', 'status_iff', 'status_range', 'status_perm',
             'statusOfLines_eq', 'report_status', 'incomplete_never_clean', 'complete_status', 'policy_status']
 TECHNIQUE = 'Lean 4 theorems (closed form of the status fold by induction, iff-characterisation, permutation invariance; case analysis of the audit() decision logic) + end-to-end correspondence through output() and main() over scripted peers'
